@@ -15,6 +15,9 @@ Driver for C08.  Protocol (one case):
 then operations, each followed by the implementation's `impl …` line:
   policy|wd <halt|safe|restart>, safe <n> (<addr> <value>)*, dbg <addr> <value>, adv <dt>,
   force <addr> <value>, release <addr>,
+  vw <target> <value> (enqueue_global_write / enqueue_instance_write), lw <target> <value>
+  (enqueue_lvalue_write), fv <target> <value> (force_global), rv <target> (release_global);
+  targets: see `Conc.poke`; `restart <warm|cold> <program instances re-created 0|1>`,
   runloop <interval ns> <watchdog enabled> <cycle exceeds the timeout> <iterations completed> <post-cycle simulation
       step fails in every iteration>   (last operation: the
       runtime is handed to a ResourceRunner thread; answer `state=<Faulted|Stopped> err=.. ev=..`)
@@ -145,7 +148,8 @@ def observe (cfg : Cfg) (r : PRes CStore CEnv) (isCycle : Bool) (refused : Bool)
     s!"m e={match r.err with | some e => showErr e | none => "-"} ev={dash (r.evs.filterMap showEv)} " ++
     s!"f={if s.faulted then 1 else 0} lf={match s.lastFault with | some e => showErr e | none => "-"} " ++
     s!"st={s.store.steps} pr={dash (r.evs.filterMap showProg)} in={showHex s.io.inputs} " ++
-    s!"out={showHex s.io.outputs} mem={showHex s.io.memory} sr={dash sr} cc={s.cycles} now={s.now}"
+    s!"out={showHex s.io.outputs} mem={showHex s.io.memory} sr={dash sr} cc={s.cycles} now={s.now} " ++
+    s!"gv={showInts s.store.vars} ns={showNats s.store.ns}"
   if isCycle then base ++ s!" ch={if refused then 0 else 1}" else base
 
 def doOp (st : St) (op : Op) : St × Option String :=
@@ -242,8 +246,29 @@ def stepLine (st : St) (line : String) : St × Option String :=
   | ["cycle"] => doOp st .cycle
   | ["watchdog"] => doOp st .watchdog
   | ["simfault"] => doOp st .simFault
-  | ["restart", "warm"] => doOp st (.restart .warm)
-  | ["restart", "cold"] => doOp st (.restart .cold)
+  | ["restart", m, fresh] =>
+    -- `fresh` = the restart re-created the program instances (observed by the harness; C09's subject)
+    match (if m = "warm" then some RestartMode.warm else if m = "cold" then some .cold else none),
+          parseBool? fresh, st.rs with
+    | some m, some fresh, some rs =>
+      doOp { st with rs := some { rs with store := { rs.store with idsChange := fresh } } } (.restart m)
+    | _, _, _ => (st, some "bad-op")
+  | ["vw", k, v] =>
+    match k.toNat?, v.toInt? with
+    | some k, some v => doOp st (.varWrite k v)
+    | _, _ => (st, some "bad-op")
+  | ["lw", k, v] =>
+    match k.toNat?, v.toInt? with
+    | some k, some v => doOp st (.lvalWrite k v)
+    | _, _ => (st, some "bad-op")
+  | ["fv", k, v] =>
+    match k.toNat?, v.toInt? with
+    | some k, some v => doOp st (.forceVar k v)
+    | _, _ => (st, some "bad-op")
+  | ["rv", k] =>
+    match k.toNat? with
+    | some k => doOp st (.releaseVar k)
+    | none => (st, some "bad-op")
   | ["clear"] => doOp st .clearFault
   | _ => (st, some "bad-op")
 
